@@ -68,11 +68,19 @@ func NewBuilder(dir string, numItems uint, targetFileSize uint64) (*Builder, err
 	}, nil
 }
 
+// maxKeyLen is the longest supported key: the key length is recorded in a
+// uint16 in the temporary bucket files (see writeTuple and hashBucket).
+const maxKeyLen = 1<<16 - 1
+
 // Insert writes a key-value mapping to the index.
 //
 // Index generation will fail if the same key is inserted twice.
+// Keys longer than maxKeyLen bytes are rejected.
 // The writer must not pass a value greater than targetFileSize.
 func (b *Builder) Insert(key []byte, value [36]byte) error {
+	if len(key) > maxKeyLen {
+		return fmt.Errorf("key is too long: %d bytes (at most %d are supported)", len(key), maxKeyLen)
+	}
 	return b.buckets[b.Header.BucketHash(key)].writeTuple(key, value)
 }
 
